@@ -701,6 +701,9 @@ func c03LongLoop(N, M, iters int) string {
 				}
 			}
 			ts[t].Do()
+			if k == N-1 {
+				break // the last arrival releases the tokens: its acknowledgement and their requests come in any order
+			}
 			o := next(tmoStep)
 			if o == nil || o.kind != "incoming" {
 				what := "nothing"
@@ -710,9 +713,19 @@ func c03LongLoop(N, M, iters int) string {
 				return fmt.Sprintf("%s: after the answer of %s (arrival %d of %d) expected the gateway's acknowledgement, saw %s", where, t, k+1, N, what)
 			}
 		}
-		us, msg := tasks(M, "U", where)
-		if msg != "" {
-			return msg
+		us, acked := map[string]bpmn.TaskTrace{}, false
+		for len(us) < M || !acked {
+			o := next(tmoStep)
+			switch {
+			case o == nil:
+				return fmt.Sprintf("%s: all %d tokens arrived; acknowledged %v, %d of %d downstream requests", where, N, acked, len(us), M)
+			case o.kind == "incoming" && !acked:
+				acked = true
+			case o.kind == "task" && strings.HasPrefix(o.node, "U") && us[o.node] == nil:
+				us[o.node] = o.task
+			default:
+				return fmt.Sprintf("%s: all %d tokens arrived, expected the acknowledgement and the requests of U0..U%d, saw %s %s", where, N, M-1, o.kind, o.node)
+			}
 		}
 		for _, u := range us {
 			u.Do()
